@@ -951,9 +951,12 @@ def fam_engine_cache(tier, base):
     r = verif.model_check("MC_EngineCache", "MC_EngineCache.cfg", timeout=3000, workers=1)
     inputs, trace = base + ".in.ndjson", base + ".trace.ndjson"
     allin = list(dict.fromkeys(r.tagged("INPUT")))
-    every = max(1, len(allin) // (40 if q else 600))
+    allin = [x for x in allin if '"wait"' in x]
+    churn = [x for x in allin if '"churn"' in x]
+    plain = [x for x in allin if '"churn"' not in x]
+    pick = lambda xs, want: [x for i, x in enumerate(xs) if (i + verif.seed()) % max(1, len(xs) // want) == 0]
     with open(inputs, "w") as f:
-        f.write("\n".join(x for i, x in enumerate(allin) if (i + verif.seed()) % every == 0 and '"wait"' in x) + "\n")
+        f.write("\n".join(pick(plain, 30 if q else 400) + pick(churn, 30 if q else 400)) + "\n")
     b = verif.build_driver("storecmp")
     verif.run_driver_sharded(b, "TestEngineCache", inputs, trace, shards=10, timeout=7000)
     os.remove(inputs)
